@@ -20,7 +20,9 @@ Extracted (every run, from /repo's working tree and the vendored jsonwebtoken so
     Any other shape of those statements is an ExtractError;
   * snap-control/src/server/auth.rs: the literal of `auth_str.strip_prefix("Bearer ")` in `extract_bearer_token`
     (the rest of the header value is the token, verbatim) and the shape of `AuthMiddleware::call`
-    (extract -> verify -> inner | 401).
+    (extract -> verify -> inner | 401);
+  * token_verifier.rs: the fields (name, type) of `struct SnapTokenVerifier` and the receiver of `verify` - what one
+    verifier instance can carry from one presentation of a token to the next (`verifierFields`, `verifyReceiver`).
 """
 import re, os, glob
 
@@ -312,6 +314,27 @@ def register(api):
                 and re.search(r"match verifier\.verify\(&token\)\.await \{ Ok\(token_claims\) => \{ request\.extensions_mut\(\)\.insert\(token_claims\); inner\.call\(request\)\.await \} Err\(err\) => \{ .*? Ok\(build_unauthorized_response\(err\)\) \} \}", call)):
             raise E("AuthMiddleware::call: not `extract_bearer_token -> verifier.verify(&token) -> inner.call | 401`")
 
+        # ---- what one verifier instance consists of (token_verifier.rs) -----------------------------------
+        # the fields of `struct SnapTokenVerifier` (name, type text) and the receiver of `verify`: the model treats an
+        # instance as (key configuration, Validation) and `verify` as a function of (token, clock) - a field that can
+        # carry something from one call to the next changes `verifierFields` and the theorem that pins it
+        sb = fn_body(tv, r"pub struct SnapTokenVerifier\s*\{", "struct SnapTokenVerifier")
+        ver_fields = []
+        for line in sb.split("\n"):
+            line = line.strip()
+            if not line or line.startswith("#["):
+                continue
+            fm = re.fullmatch(r"(?:pub(?:\([^)]*\))?\s+)?(\w+)\s*:\s*(.+?),?", line)
+            if not fm:
+                raise E(f"struct SnapTokenVerifier: cannot parse field line {line!r}")
+            ver_fields.append((fm.group(1), "".join(fm.group(2).split())))
+        if not ver_fields:
+            raise E("struct SnapTokenVerifier: no fields found")
+        mv = re.search(r"pub\s+async\s+fn\s+verify\s*\(\s*(&\s*mut\s+self|&\s*self|mut\s+self|self)\s*,\s*token\s*:\s*&str\s*\)", tv)
+        if not mv:
+            raise E("SnapTokenVerifier::verify(<self>, token: &str) not found")
+        verify_receiver = " ".join(mv.group(1).split()).replace("& ", "&")
+
         def opt_list(x):
             return "none" if x is None else "some " + lean_list(x)
 
@@ -351,6 +374,10 @@ def register(api):
         body += "-- AuthMiddleware (auth.rs): token = auth_str.strip_prefix(bearerPrefix) taken verbatim, then verifier.verify(&token); 401 otherwise\n"
         body += f"def bearerPrefix : String := {lean_str(bearer_prefix)}\n"
         body += "def middlewareVerifiesExtractedToken : Bool := true\n"
+        body += "-- one verifier instance (token_verifier.rs): fields of `struct SnapTokenVerifier` (name, type), receiver of `verify`\n"
+        spair = lambda p: f"({lean_str(p[0])}, {lean_str(p[1])})"
+        body += f"def verifierFields : List (String × String) := {lean_list(ver_fields, spair)}\n"
+        body += f"def verifyReceiver : String := {lean_str(verify_receiver)}\n"
         body += "end ScionVerif.Generated.Token\n"
         vals = {"jsonwebtoken": jwt_ver, "algorithms": cfg["algorithms"], "required_spec_claims": cfg["required"],
                 "leeway": cfg["leeway"], "reject_tokens_expiring_in_less_than": cfg["reject_tokens_expiring_in_less_than"],
@@ -358,6 +385,7 @@ def register(api):
                 "aud": cfg["aud"], "iss": cfg["iss"], "sub": cfg["sub"], "known_algorithms": algs,
                 "checkable_spec_claims": checkable, "v1_tag": v1_tag, "v0_fields": lf0, "v1_fields": lf1,
                 "v0_required": r0, "v1_required": r1, "v1_flatten_private_claims": flat1, "exp_unit_ns": u0,
-                "handler_lifetime": "exp_time().duration_since(SystemTime::now())", "handler_register_calls": 1, "handler_key": "jti", "bearer_prefix": bearer_prefix}
+                "handler_lifetime": "exp_time().duration_since(SystemTime::now())", "handler_register_calls": 1, "handler_key": "jti", "bearer_prefix": bearer_prefix,
+                "verifier_fields": ver_fields, "verify_receiver": verify_receiver}
         srcs = [rel_tv, rel_lib, rel_v0, rel_v1, rel_crpc, rel_auth, f"jsonwebtoken-{jwt_ver}/src/validation.rs", f"jsonwebtoken-{jwt_ver}/src/algorithms.rs"]
         return api.write_lean("Token", body, srcs), vals
